@@ -321,8 +321,7 @@ func (r *rewriter) rewriteForRanges(c *astutil.Cursor, pkg loader.Pkg) bool {
 //		$body
 //	}
 func (r *rewriter) rewriteForRange(pkg loader.Pkg, fr *ast.RangeStmt) *ast.ForStmt {
-	isValid := fr.Key != nil && fr.Value == nil
-	r.assert(pkg, isValid, fr, "invalid for range")
+	r.assert(pkg, fr.Value == nil, fr, "invalid for range")
 
 	// iter := X.Ident(cstIterVar)
 	iter := pkg.NewIdent(cstIterVar, pkg.TypeOf(fr.X))
@@ -331,6 +330,10 @@ func (r *rewriter) rewriteForRange(pkg loader.Pkg, fr *ast.RangeStmt) *ast.ForSt
 
 	init := X.Define(iter, fr.X)
 	cond := X.Call(next)
+	if fr.Key == nil {
+		// for range $X { $body }
+		return X.ForStmt(init, cond, nil, fr.Body)
+	}
 	assign := X.Assign(fr.Tok, fr.Key, X.Call(current))
 	var body *ast.BlockStmt
 	if fr.Tok == token.DEFINE && redeclares(fr.Body.List, fr.Key) {
